@@ -59,6 +59,22 @@ def sock_cases(tier, rnd):
                     ops.append(["net", "accept", d])
                     ops += [["send", "zone_ctrl", pol, "inline"], ["adv", d + 3.0]]
                     out.append(ops)
+    # --- accepted while down, first connection at `a` faults, next connection at `b`
+    #     (an expiry that moved with the retry would let the message out after its lifetime)
+    for pol, (r, L) in pols.items():
+        for a in (0.3 * L, 0.9 * L):
+            for b in (L - 1e-3, L + 1e-3, a + L - 1e-3, a + 0.5 * L):
+                if b <= a:
+                    continue
+                for exc in (None, "reset", "timeout", "oserror"):
+                    out.append([["net", "accept", a, rnd.choice([1, 2, 3])],
+                                ["net", "accept", b - a], ["fin"], ["q"],
+                                ["send", "zone_ctrl", pol, "inline"], ["adv", b + 3.0]]
+                               if exc is None else
+                               [["net", "accept", a], ["net", "accept", b - a], ["fin"], ["q"],
+                                ["send", "zone_ctrl", pol, "t1"], ["adv", a + 1e-4],
+                                ["wfail", 1, exc], ["send", "ac_ctrl", "long", "inline"],
+                                ["adv", b + 3.0]])
     # --- RST while drain is suspended (stalled writer) / right after the write
     for pol in pols:
         for d in (0.0, 0.9, 1.0 + EPS, 29.9, 30.0 + EPS):
